@@ -92,6 +92,43 @@ package builder
 //@             as(bc.request.CurrentState.WorkerState, *remoteworker.CurrentState_Executing_).Executing.ActionDigest == executionRequest.ActionDigest
 //@   ensures failed-start-changes-nothing: r0 != nil ==> unchanged()
 
+// Every worker thread reports its own state: a new client gets a state message
+// of its own (C08).
+//@ func NewBuildClient
+//@   props C08
+//@   ensures every-client-is-a-new-object: isnew(r0)
+//@   ensures a-new-client-reports-idle: isIdle(r0)
+
+// The tracing decorator is the executor the worker thread talks to: it returns
+// only with the response the wrapped executor produced, i.e. after that
+// executor has really finished (C08: stopExecution waits for exactly this).
+//@ func (*tracingBuildExecutor).Execute
+//@   props C08
+//@   loop 0 invariant recvd(baseCompletion) == 0
+//@   ensures returns-only-after-the-wrapped-executor-has-returned: recvd(baseCompletion) == 1
+
+// A readiness check closes the build directory it obtained exactly once (C12:
+// a second close releases somebody else's use of the worker).
+//@ func (*localBuildExecutor).CheckReadiness
+//@   props C12
+//@   ensures the-build-directory-is-closed-exactly-once: buildDirectory != nil ==> dirclosed(buildDirectory) == 1
+
+// A file of a native build directory that is reported as uploaded was handed to
+// the Content Addressable Storage, whatever its size (C09).
+//@ func (*naiveBuildDirectory).UploadFile
+//@   props C09 C10
+//@   at call Put#1 ghostset execsteps[6] = 1
+//@   ensures a-reported-digest-was-written-to-the-cas: r1 == nil ==> execsteps(6) == 1
+
+// Every declared output below this directory is visited: every subdirectory
+// that holds declared outputs is entered (or found absent), also when the
+// subdirectory is a declared output itself (C10).
+//@ func (*outputNode).uploadOutputs
+//@   props C10
+//@   at call EnterUploadableDirectory#1 ghostset execsteps[7] = execsteps(7) + 1
+//@   loop 0 invariant execsteps(7) == 0
+//@   loop 1 invariant every-subdirectory-with-declared-outputs-is-entered: execsteps(7) == rangeindex + 1
+
 // The goroutine that runs an action reports its completion exactly once, with a
 // send that cannot be skipped (the completion is never dropped because the
 // buffer of progress updates happens to be full), for the action it was
